@@ -368,6 +368,23 @@ func SpecCheck(c *Case, real, model *Observed) string {
 			return fmt.Sprintf("reported error %s %q is not in Spec.errsF", e.Path, e.Msg)
 		}
 	}
+	// Spec.nulls (theorem visible_null_has_error): the implementation's data has a null exactly at
+	// every listed position, and its error list holds at least one of that null's candidates.
+	for _, n := range model.SpecNulls {
+		if at, ok := Landing(real.tree, n.Path); !ok || at != n.Path {
+			return fmt.Sprintf("Spec.nulls lists a null at %s; the data %s has none exactly there (walk ends at %q, null met: %v)", n.Path, real.Data, at, ok)
+		}
+		hit := false
+		for _, e := range n.Cands {
+			if have[e] {
+				hit = true
+				break
+			}
+		}
+		if !hit {
+			return fmt.Sprintf("the null at %s has no explaining error: none of its candidates %v (Spec.nulls) is reported: %v", n.Path, n.Cands, real.Errors)
+		}
+	}
 	goAll := AllErrors(c)
 	se := func(e ErrObs) string { return e.Path + ":" + e.Msg }
 	if keys(all, se) != keys(goAll, se) {
